@@ -232,6 +232,13 @@ def build(u):
     kkw = u.src("proxy_agent/src/shared_state/key_keeper_wrapper.rs")
     tw = u.src("proxy_agent/src/shared_state/telemetry_wrapper.rs")
     asw = u.src("proxy_agent/src/shared_state/agent_status_wrapper.rs")
+    pxs = u.src("proxy_agent/src/proxy/proxy_server.rs")
+    pc = u.src("proxy_agent/src/proxy/proxy_connection.rs")
+    px = u.src("proxy_agent/src/proxy.rs")
+    hc = u.src("proxy_agent/src/common/hyper_client.rs")
+    cs = u.src("proxy_agent/src/common/constants.rs")
+    rw = u.src("proxy_agent/src/shared_state/redirector_wrapper.rs")
+    psw = u.src("proxy_agent/src/shared_state/proxy_server_wrapper.rs")
     census(u, pv)
     for f in ("str_axioms.rs", "ext_types.rs", "std_string.rs"):
         u.raw(open(os.path.join(COMMON, f)).read())
@@ -239,7 +246,8 @@ def build(u):
     u.raw_file("deps.rs")
     u.raw_file("spec.rs")
     u.raw_file("task.rs")
-
+    u.raw("#[allow(unused_imports)] use hyper::StatusCode;")
+    u.raw_file("http_deps.rs")
     # ---- types and callee stubs -----------------------------------------------------------------------------
     with u.mod("proxy_agent_shared"):
         with u.mod("error"):
@@ -270,6 +278,13 @@ def build(u):
             u.take(lg, "AGENT_LOGGER_KEY", "const")
             for f in ("write_warning", "write_error", "write_serial_console_log"):
                 u.take_fn(lg, f, external_body=True, ret="")
+        with u.mod("constants"):
+            for c in ("METADATA_HEADER", "TIME_TICK_HEADER", "NOTIFY_HEADER"):
+                u.take(cs, c, "const")
+        with u.mod("hyper_client", uses="use http_body_util::combinators::BoxBody;\nuse hyper::body::Bytes;"):
+            u.take_fn(hc, "full_body", external_body=True, contract="""
+        ensures box_body_bytes(r) == into_bytes_view(chunk),
+""")
         with u.mod("config", uses="use std::path::PathBuf;"):
             u.take_fn(cfg, "get_keys_dir", external_body=True)
         with u.mod("helpers"):
@@ -282,6 +297,11 @@ def build(u):
             u.take(key, "Privilege", "struct")
             u.take(key, "Identity", "struct")
     with u.mod("proxy"):
+        with u.mod("proxy_connection", uses="use log::Level as LoggerLevel;"):
+            u.take(pc, "ConnectionLogger", "struct")
+            with u.impl_(pc, "ConnectionLogger"):
+                u.take_fn(pc, "ConnectionLogger::write", external_body=True, ret="")
+        build_handler(u, pxs, pv)
         with u.mod("authorization_rules", uses="use crate::key_keeper::key::{Identity, Privilege};\nuse std::collections::{HashMap, HashSet};"):
             u.take(ar, "AuthorizationMode", "enum")
             u.take(ar, "ComputedAuthorizationItem", "struct")
@@ -298,6 +318,12 @@ def build(u):
         ensures *final(t) == (Task { last_channel: match r { Ok(s) => Some(s@), Err(_) => None }, ..*old(t) }),
 """)
                 u.take_fn(kkw, "KeyKeeperSharedState::notify", external_body=True)
+        # E13: two fields of ProxyServer that handle_provision_state_check_request never touches (their real definitions
+        # need crate `aya`, which is not part of build/extdeps)
+        with u.mod("redirector_wrapper"):
+            u.placeholder_ext(rw, ["RedirectorSharedState"], "vx_ph_rw")
+        with u.mod("proxy_server_wrapper"):
+            u.placeholder_ext(psw, ["ProxyServerSharedState"], "vx_ph_psw")
         with u.mod("telemetry_wrapper"):
             u.take_ext(tw, ["TelemetryAction", "TelemetrySharedState"], "vx_ext_tw", uses="use crate::telemetry::event_reader::VmMetaData;\nuse tokio::sync::{mpsc, oneshot};")
         with u.mod("agent_status_wrapper", uses="use crate::proxy_agent_shared::proxy_agent_aggregate_status::{ModuleState, ProxyAgentDetailStatus, ProxyConnectionSummary};"):
@@ -394,6 +420,14 @@ use tokio_util::sync::CancellationToken;"""
             u.take_fn(pv, "ProvisionStateInternal::is_secure_channel_latched", pre_body="proof { lits_channel(); }", contract="""
         ensures r == latched(self.key_keeper_secure_channel_state@),  // @C16.is_secure_channel_latched.neither_disabled_nor_unknown
 """)
+        with u.mod("provision_query", uses="use serde_derive::{Deserialize, Serialize};"):
+            # serde derives inside verus!{} crash this Verus build (thir_body ICE) -> the struct is kept verbatim outside
+            # verus!{} (derives intact, fields public) and declared as a TRANSPARENT external type
+            u.take_ext(pv, ["provision_query::ProvisionState"], "vx_ext_provision_state", uses="use serde_derive::{Deserialize, Serialize};", opaque=False, transparent=True)
+            with u.impl_(pv, "provision_query::ProvisionState"):
+                u.take_fn(pv, "provision_query::ProvisionState::new", contract="""
+        ensures r.finished == finished && r.errorMessage == error_message,
+""")
         u.take_fn(pv, "start_event_threads", external_body=True, ret="")
         u.take_fn(pv, "write_provision_state", external_body=True, ret="", ghost=TASK_GHOST, sig_edits=unit_ret(pv, "write_provision_state"), contract="""
         ensures final(t).same_knowledge(*old(t)),
@@ -488,30 +522,45 @@ pub open spec fn tree_section_suffix(s: Subsystem) -> Seq<char> {
 """)
 
 
-def build_handler(u):
-    pxs = u.src("proxy_agent/src/proxy/proxy_server.rs")
-    pc = u.src("proxy_agent/src/proxy/proxy_connection.rs")
-    px = u.src("proxy_agent/src/proxy.rs")
-    hc = u.src("proxy_agent/src/common/hyper_client.rs")
-    cs = u.src("proxy_agent/src/common/constants.rs")
-    rw = u.src("proxy_agent/src/shared_state/redirector_wrapper.rs")
-    psw = u.src("proxy_agent/src/shared_state/proxy_server_wrapper.rs")
-    rl = u.src("proxy_agent/src/redirector/linux.rs")
-    pv = u.src(PV)
-    u.raw_file("http_deps.rs")
-    # Placeholder for ONE dependency type: crate `aya` is not part of build/extdeps. `aya::Ebpf` is only the field type of the
-    # opaque struct redirector::BpfObject, which is only the payload of the opaque channel type inside
-    # RedirectorSharedState, a field of ProxyServer that handle_provision_state_check_request never touches.
-    u.ext_pieces.append(vxlib.Piece("pub mod vx_placeholder_aya { pub struct Ebpf; }\n", "rule", rule="placeholder"))
-    u.rule("placeholder", "aya::Ebpf (crate aya not in build/extdeps): unit struct standing in as the field type of the opaque redirector::BpfObject")
-    with u.mod("redirector"):
-        u.take_ext(rl, ["BpfObject"], "vx_ext_redirector", uses="use crate::vx_placeholder_aya::Ebpf;")
-    with u.mod("shared_state_2"):
-        u.take_ext(rw, ["RedirectorAction", "RedirectorSharedState"], "vx_ext_rw", uses="use crate::redirector;\nuse std::sync::{Arc, Mutex};\nuse tokio::sync::{mpsc, oneshot};")
-        u.take_ext(psw, ["ProxyServerAction", "ProxyServerSharedState"], "vx_ext_psw", uses="use crate::proxy::User;\nuse std::collections::HashMap;\nuse tokio::sync::{mpsc, oneshot};")
-    with u.mod("constants2"):
-        pass
 
-
-def _unused():
-    pass
+def build_handler(u, pxs, pv):
+    uses = """use super::proxy_connection::ConnectionLogger;
+use crate::common::{constants, hyper_client, logger, result::Result};
+use crate::provision;
+use crate::shared_state::agent_status_wrapper::{AgentStatusModule, AgentStatusSharedState};
+use crate::shared_state::key_keeper_wrapper::KeyKeeperSharedState;
+use crate::shared_state::provision_wrapper::ProvisionSharedState;
+use crate::shared_state::proxy_server_wrapper::ProxyServerSharedState;
+use crate::shared_state::redirector_wrapper::RedirectorSharedState;
+use crate::shared_state::telemetry_wrapper::TelemetrySharedState;
+use http_body_util::combinators::BoxBody;
+use hyper::body::{Bytes, Incoming};
+use hyper::header::{HeaderName, HeaderValue};
+use hyper::StatusCode;
+use hyper::{Request, Response};
+use crate::proxy_agent_shared::logger::LoggerLevel;
+use tokio_util::sync::CancellationToken;
+use tower_http::body::Limited;"""
+    with u.mod("proxy_server", uses=uses):
+        u.take(pxs, "ProxyServer", "struct")
+        with u.impl_(pxs, "ProxyServer"):
+            u.take_fn(pxs, "ProxyServer::empty_response", external_body=True, contract="""
+        ensures resp_status(r) == status_u16(status_code) && box_body_bytes(resp_body(r)) == Seq::<u8>::empty(),
+""")
+            u.take_fn(pxs, "ProxyServer::handle_provision_state_check_request", ghost=TASK_GHOST,
+                      pre_body="broadcast use axiom_fmt_error, axiom_key_text_str, axiom_into_bytes_vec, axiom_fmt_parse_int_error, axiom_fmt_serde_json_error, axiom_clone_is_copy_u8;\nproof { lits_headers(); }",
+                      ghost_calls=[("provision::get_provision_state_internal", None, "Tracked(t)")],
+                      e9=[("StatusCode::BAD_REQUEST", None, "", "", "http::StatusCode", "    ensures status_u16(r) == 400,", dict(name="vx_e9_status_BAD_REQUEST")),
+                          ("StatusCode::INTERNAL_SERVER_ERROR", None, "", "", "http::StatusCode", "    ensures status_u16(r) == 500,", dict(name="vx_e9_status_INTERNAL_SERVER_ERROR")),
+                          ("hyper::header::CONTENT_TYPE", None, "", "", "http::header::HeaderName", "", dict(name="vx_e9_header_CONTENT_TYPE"))],
+                      contract="""
+        ensures
+            final(t).ops == old(t).ops,   // a status query never changes the provisioning state
+            r is Ok,
+            hm_get(req_headers(request), "Metadata"@) is None ==> resp_status(r->Ok_0) == 400 && box_body_bytes(resp_body(r->Ok_0)).len() == 0,
+            hm_get(req_headers(request), "Metadata"@) is Some && resp_status(r->Ok_0) != 500 ==> resp_status(r->Ok_0) == 200 && exists|ps: provision::provision_query::ProvisionState|
+                box_body_bytes(resp_body(r->Ok_0)) == utf8_of(#[trigger] json_of(&ps))
+                && (ps.finished ==> finished_allowed(tick_or_zero(final(t).last_tick), query_instant(request), latched(channel_or_unknown(final(t).last_channel))))  // @C16.handle_provision_state_check_request.finished_only_if_tick_set_at_or_after_query_instant_or_latched
+                && ps.errorMessage@ == error_text(flags_or_none(final(t).reads.last()),
+                        final(t).msgs[AgentStatusModule::Redirector], final(t).msgs[AgentStatusModule::KeyKeeper], final(t).msgs[AgentStatusModule::ProxyServer]),  // @C16.handle_provision_state_check_request.error_text_names_exactly_the_subsystems_not_ready
+""")
